@@ -13,7 +13,7 @@ from synth.syntax.grammars.grammar import NGram
 from synth.syntax.grammars.tagged_det_grammar import ProbDetGrammar
 from synth.syntax.grammars.tagged_u_grammar import ProbUGrammar
 from synth.syntax.program import Constant, Function, Primitive, Program, Variable
-from synth.syntax.type_system import Type
+from synth.syntax.type_system import Arrow, Type
 from lib import objs as O
 from props.c01_impl import build_dsl
 
@@ -162,6 +162,8 @@ def build_grammar(kind, gp):
             g = TTCFG.size_constraint(dsl, treq, bound, max(2, n_gram))
         else:
             g = CFG.depth_constraint(dsl, treq, bound, min_var, n_gram, False, consts)
+        if kind == "cfgdfa":
+            g = g * counting_dfa(g, constraint)
         n = g.programs()
         if 0 <= n <= CAP or bound <= 1:
             break
@@ -177,6 +179,40 @@ def build_grammar(kind, gp):
             note = "sharpening failed (%s), plain UCFG used" % type(e).__name__
             g = UCFG.from_CFG(g, True)
     return g, bound, note
+
+
+def counting_dfa(g, spec):
+    """DFA over the derivable programs of g whose state counts the occurrences of
+    the counted symbols (spec "dfa:<max>:<what>", what = const | var | leaf):
+    the product g * dfa is a genuine tree-traversing grammar (state T varies)."""
+    from synth.syntax.automata.dfa import DFA
+    _, k, what = spec.split(":")
+    k = int(k)
+    syms = []
+    for S in g.rules:
+        for P in g.rules[S]:
+            if P not in syms:
+                syms.append(P)
+
+    def counted(P):
+        if what == "const":
+            return isinstance(P, Constant)
+        if what == "var":
+            return isinstance(P, Variable)
+        return isinstance(P, (Variable, Constant)) or not isinstance(P.type, Arrow)
+
+    if not any(counted(P) for P in syms):
+        what = "leaf"
+    rules = {}
+    for used in range(k + 1):
+        rules[used] = {}
+        for P in syms:
+            if counted(P):
+                if used < k:
+                    rules[used][P] = used + 1
+            else:
+                rules[used][P] = used
+    return DFA(0, rules)
 
 
 def dyadic(rng):
@@ -279,7 +315,7 @@ def impl(case):
         allp = cands + extra
         out["model_call"] = [1, [det_table(pg), det_nt(pg.start), mode, raw, samples,
                                  [O.prog_wire(p) for p in allp], FUEL,
-                                 int(len(lang) <= (4 * SUM_CAP if kind == "ttcfg" else SUM_CAP))]]
+                                 int(len(lang) <= (4 * SUM_CAP if kind in ("ttcfg", "cfgdfa") else SUM_CAP))]]
         out["weights"] = det_weights(pg.tags)
         out["max_rules"] = max([len(pg.rules[S]) for S in pg.rules] + [1])
     out["in"] = [1 if p in pg else 0 for p in allp]
